@@ -7,7 +7,7 @@ length field, and their boundaries +-1): faults while nothing is in flight test 
 from . import seeds
 
 KINDS = ['truncate', 'zero_block', 'bitflip', 'overwrite', 'dup_block', 'swap_blocks', 'append', 'empty', 'foreign', 'header_damage', 'value_damage',
-         'value_damage', 'shorten_record']
+         'value_damage', 'shorten_record', 'length_damage']
 
 
 def apply(by: bytes, fault) -> bytes:
@@ -93,6 +93,14 @@ def gen_fault(rng, by_len, fields, kinds=None):
             return ['bitflip', position(rng, n, fields), rng.randrange(8)]
         pos, ln, _ = rng.pick(toks)
         return ['stretch', pos, ln, rng.pick([26, 32, 40, 64])]
+    if kind == 'length_damage':
+        # a length field (physical record, segment, visible record) replaced by a boundary value: zero, less than its own header,
+        # one more or less than a header, the largest values
+        lens = [f for f in fields if f[2] in ('pr.len', 'seg.len', 'vr.len') and f[1] == 2]
+        if not lens:
+            return ['zero_block', position(rng, n, fields), rng.randrange(1, 9)]
+        lf = rng.pick(lens)
+        return ['overwrite', lf[0], rng.pick([0, 0, 1, 2, 3, 4, 5, 6, 0xffff, 0x8000, 0x7fff]).to_bytes(2, 'big').hex()]
     if kind == 'char_sub':
         # one character of a key token of a text format replaced by another legal-looking character
         toks = [f for f in fields if f[2].endswith('.token') or f[2].endswith('.header')]
